@@ -13,6 +13,8 @@
  *        for every k a new context and new inputs are set up (not under fault), the operation runs with the fault(s) armed, is
  *        repeated on the same context and objects with no fault, and everything is freed.
  * Operations (digest = what the caller gets back):
+ *   lst <n>                       integer list: new, n appends of integers above 255, free            (modelled: Model/Alloc.lean lstOp)
+ *   tlvp <hex>                    KSI_TLV_parseBlob, nested lists of every element whose tag is >= 0x100, free   (modelled: tlvpOp)
  *   list <n>                      integer list: new, n appends, indexOf, insertAt, remove, sort
  *   tlv <hex>                     KSI_TLV_parseBlob, nested lists of every element whose tag is >= 0x100, clone, serialize
  *   el <hex>                      KSI_TlvElement_parse, detach/serialize
@@ -145,6 +147,21 @@ cleanup:
 	return res;
 }
 
+/* the two operations that have a model with an explicit heap (lean/KsiVerif/Model/Alloc.lean): exactly these calls */
+static int run_lst(Env *e, char *out) {
+	int res, n = atoi(e->w[0]), j; KSI_LIST(KSI_Integer) *l = NULL; KSI_Integer *v = NULL;
+	res = KSI_IntegerList_new(&l); if (res != KSI_OK) goto cleanup;
+	for (j = 0; j < n; j++) {
+		res = KSI_Integer_new(e->ctx, 1000 + (unsigned long long)j, &v); if (res != KSI_OK) goto cleanup;      /* above the shared small integers: one block */
+		res = KSI_IntegerList_append(l, v); if (res != KSI_OK) goto cleanup;
+		v = NULL;
+	}
+	put_digest(out, 0, KSI_IntegerList_length(l));
+cleanup:
+	KSI_Integer_free(v); KSI_IntegerList_free(l);
+	return res;
+}
+
 static int su_blob(Env *e) { e->b[0] = unhex(e->w[0], &e->bl[0]); return 0; }
 
 static int walk(KSI_TLV *t, unsigned long long *h, size_t *cnt, int depth) {
@@ -173,6 +190,16 @@ static int run_tlv(Env *e, char *out) {
 	put_digest(out, h, cnt);
 cleanup:
 	KSI_free(ser); KSI_free(ser2); KSI_TLV_free(c); KSI_TLV_free(t);
+	return res;
+}
+
+static int run_tlvp(Env *e, char *out) {
+	int res; KSI_TLV *t = NULL; size_t cnt = 0; unsigned long long h = FNV0;
+	res = KSI_TLV_parseBlob(e->ctx, e->b[0], e->bl[0], &t); if (res != KSI_OK) goto cleanup;
+	res = walk(t, &h, &cnt, 0); if (res != KSI_OK) goto cleanup;
+	put_digest(out, h, cnt);
+cleanup:
+	KSI_TLV_free(t);
 	return res;
 }
 
@@ -375,7 +402,7 @@ static int run_pubf(Env *e, char *out) {
 	h = fnv(h, s, sl);
 	put_digest(out, h, sl);
 cleanup:
-	KSI_PublicationRecord_free(a); KSI_PublicationRecord_free(b); KSI_Integer_free(t); KSI_PublicationsFile_free(pf);
+	KSI_free(s); KSI_PublicationRecord_free(b); KSI_Integer_free(t); KSI_PublicationsFile_free(pf);      /* (the latest record is lent, the nearest one is a reference) */
 	return res;
 }
 
@@ -405,7 +432,7 @@ cleanup:
 }
 
 static const struct op { const char *name; int minargs; int (*setup)(Env *); int (*run)(Env *, char *); } OPS[] = {
-	{ "list", 1, su_none, run_list }, { "tlv", 1, su_blob, run_tlv }, { "el", 1, su_blob, run_el }, { "sig", 1, su_blob, run_sig },
+	{ "lst", 1, su_none, run_lst }, { "tlvp", 1, su_blob, run_tlvp }, { "list", 1, su_none, run_list }, { "tlv", 1, su_blob, run_tlv }, { "el", 1, su_blob, run_el }, { "sig", 1, su_blob, run_sig },
 	{ "ver", 2, su_ver, run_ver }, { "areq", 3, su_areq, run_areq }, { "ereq", 3, su_ereq, run_ereq }, { "sign", 5, su_sign, run_sign },
 	{ "ext", 5, su_ext, run_ext }, { "tree", 3, su_none, run_tree }, { "build", 2, su_sig, run_build }, { "pubf", 2, su_blob, run_pubf },
 	{ "pubs", 1, su_none, run_pubs }, { "hmac", 3, su_hmac, run_hmac },
